@@ -13,7 +13,9 @@ for SID in "$@"; do
   for P in ${PROPS:-C01 C02 C03 C04 C05 C06 C07 C08 C09 C10 C11 C12 C13 C14 C15 C16 C17 C18 C19}; do
     o=$(cd "$V" && VERIF_REPO="$WT" VERIF_OUT_DIR=/tmp/wt/mxout-$SID ./check $P --tier ${TIER:-quick} 2>&1)
     rc=$?
-    echo "$SID $P rc=$rc $(echo "$o" | grep -m1 'signature:' | cut -c1-160)" >> "$OUT"
+    why=""
+    [ $rc -ne 0 ] && [ $rc -ne 1 ] && why=" $(echo "$o" | grep -m1 -E 'INCONCLUSIVE|reason|inconclusive' | cut -c1-300)"
+    echo "$SID $P rc=$rc $(echo "$o" | grep -m1 'signature:' | cut -c1-160)$why" >> "$OUT"
   done
   git -C /repo worktree remove --force "$WT" >/dev/null 2>&1
   rm -rf /tmp/wt/mxout-$SID "$V"/.build/*$(echo "$WT" | md5sum | cut -c1-8)*
